@@ -816,7 +816,16 @@ func (c *Client) peekPacket() (head byte, err error) {
 		}
 
 		lastN := len(c.peek)
-		c.peek, err = c.bufr.Peek(size)
+		if head>>4 == typePUBLISH && size > c.bufr.Size() {
+			// Peek beyond the buffer size would hide read errors
+			// (including timeouts) behind ErrBufferFull.
+			c.peek, err = c.bufr.Peek(c.bufr.Size())
+			if err == nil {
+				return head, &BigMessage{Client: c, Size: size}
+			}
+		} else {
+			c.peek, err = c.bufr.Peek(size)
+		}
 		switch {
 		case err == nil: // OK
 			return head, err
